@@ -29,7 +29,7 @@ var valuePools = map[string][2][]string{
 	"long": {{"0", "1", "42", "9223372036854775807"}, {"-1", "+1", "0x10", "1_0", "", "1.5", "a", "9223372036854775808", " 1", "１"}},
 	"int":  {{"0", "1", "7", "2147483647"}, {"-1", "+1", "0x10", "", "2147483648", "1e3", "one"}},
 	"time": {{"2020-01-02T03:04:05Z", "2020-01-02T03:04:05.123456789Z", "2020-01-02T03:04:05+01:00"}, {"not-a-date", "2020-01-02", "2020-13-01T00:00:00Z", "", "2020-01-02 03:04:05Z"}},
-	"ip":   {{"127.0.0.1", "::1", "2001:db8::1"}, {"999.1.1.1", "host", "1.2.3", "", "1.2.3.4.5"}},
+	"ip":   {{"127.0.0.1", "::1", "2001:db8::1"}, {"999.1.1.1", "host", "1.2.3", "", "1.2.3.4.5", "fe80::1%eth0", "::1%1"}},
 	"uri":  {{"http://example.com/", "https://a.b/c?d#e", "urn:uuid:6f1d9a0c-0b1a-4c7e-9c2f-000000000001"}, {"", "http//x", "://", "/relative", "http://[::1"}},
 	"id":   {{"<urn:uuid:6f1d9a0c-0b1a-4c7e-9c2f-000000000001>", "<http://example.com/x>"}, {"urn:uuid:x", "<urn:uuid:x", "urn:uuid:x>", ">urn:uuid:x<", "<<urn:uuid:x>>", "<>", "", "<<urn:uuid:x", "urn:uuid:x>>"}},
 	"str":  {{"text/plain", "x", "length"}, {""}},
